@@ -1,6 +1,6 @@
 
-// ---- appended by the verification harness in scratch copies only (cfg openbangla_riti_verif) ----
-#[cfg(openbangla_riti_verif)]
+// ---- appended by the verification harness in scratch copies only (cfg openbangla_riti_verif_internal: hooks into private items; when they no longer compile against the current tree the driver is built without them and only the API-level checks run) ----
+#[cfg(openbangla_riti_verif_internal)]
 impl Layout {
     pub(crate) fn verif_empty() -> Self { Layout { map: HashMap::new() } }
     pub(crate) fn verif_from_pairs(pairs: &[(&str, &str)]) -> Self {
